@@ -173,6 +173,15 @@ def check(ctx):
                 ctx.ob("E2", "%s packet type %s only aborts the connection" % (cq, tr.name), ok, where=where(eff[0]) if eff else cls.module.path,
                        function=eff[0].func if eff else "", construct="%s/type/%s" % (cls.qual, tr.name),
                        msg="unknown/broker-bound packet type %s: effects %s" % (tr.name, [e.kind for e in eff]))
+            # ---- E5: a PUBLISH with the reserved QoS value (both bits set) is malformed: no delivery, no reply, nothing stored ----
+            if tr.name == "PUBLISH" and tr.slot is not None and tr.decode_ok and honoured(tr, ccaps):
+                from .c06 import qos_of
+                dresp = [e for e in evs if e.kind == "DECODE" and e.a["ok"]]
+                if dresp and qos_of(tr, dresp[0].a["obj"]) is None:
+                    eff = [e for e in post_dispatch(tr) if is_effect(e)]
+                    ctx.ob("E5", "%s a PUBLISH with QoS 3 has no effect" % cq, not eff, where=where(eff[0]) if eff else cls.module.path,
+                           function=eff[0].func if eff else "", construct="%s/PUBLISH/qos3" % cls.qual,
+                           msg="a PUBLISH whose QoS bits are both set (malformed) causes %s" % (eff[0].brief() if eff else ""))
             # ---- E5: packets outside their state/profile ----
             if tr.slot is not None and tr.decode_ok and not honoured(tr, ccaps):
                 eff = [e for e in post_dispatch(tr) if is_effect(e)]
